@@ -24,6 +24,7 @@
 From JT.Base Require Import Prelude.
 From JT.Model Require Import Frame Ranges Unpack Attach.
 From JT.Proofs Require Import Attach_proofs.
+From JT.Proofs Require Frame_proofs.
 
 (* Whenever ANY OnEvent snapshot shows a file whose CurrentSize equals its FileSize ("reported
    complete"), its StreamBody is the original content, byte for byte; FileSize is always the true size. *)
@@ -135,6 +136,49 @@ Theorem C15_1212_reply_exact : forall d split its sts i f m t s',
 Proof. exact reply_1212_exact_upload. Qed.
 Print Assumptions C15_1212_reply_exact.
 
+(* THE RECORD IS WHAT ARRIVED.  In the state after the k-th item of an upload, a file's OffsetDataRecord holds exactly
+   the tiles (offset, data) of that file among the first k+1 items since the file was last announced - so "missing"
+   in C15_1212_reply_exact is relative to what the terminal sent: a byte is covered by the recorded ranges exactly
+   when it lies in a tile that has arrived *)
+Theorem C15_record_is_arrived : forall d split its sts k s',
+  split_ok split -> Forall (wf_item d) its -> Forall (item_of d split) its ->
+  irun d init_st its = Some sts -> nth_error sts k = Some s' ->
+  forall nm pk, afind name_eqb nm (s_record s') = Some pk ->
+  forall x, In x (p_data pk) <-> In x (arrived d nm [] (firstn (S k) its)).
+Proof. exact record_is_arrived. Qed.
+Print Assumptions C15_record_is_arrived.
+
+Theorem C15_recorded_covers_arrived : forall d split its sts k s',
+  split_ok split -> Forall (wf_item d) its -> Forall (item_of d split) its ->
+  irun d init_st its = Some sts -> nth_error sts k = Some s' ->
+  forall nm pk, afind name_eqb nm (s_record s') = Some pk ->
+  forall x, covered (p_recs pk) x <->
+            exists off data, In (off, data) (arrived d nm [] (firstn (S k) its)) /\ off <= x < off + len data.
+Proof. exact recorded_covers_arrived. Qed.
+Print Assumptions C15_recorded_covers_arrived.
+
+(* the bytes of the answer to a 0x1212 (an element of replies_spec, C15_control_replied_once): Header.Encode of the
+   first message's header with id 0x9212, the platform serial, and T0x1212.ReplyBody of the list of
+   C15_1212_reply_exact.  Frame.encode is the code's encoder AS IS: the body length is written unmasked, so a list of
+   127 or more ranges (body over 1023 bytes) spills into the flag bits and the frame cannot be decoded - the
+   coordinator's C16 finding; the model carries those bytes *)
+Theorem C15_1212_frame_bytes : forall hd m k miss t, m_id m = ID_1212 -> parse1211 (m_body m) = Ok t ->
+  prescribed hd m k miss = encode hd ID_9212 k (reply1212 t miss).
+Proof. exact prescribed_1212. Qed.
+Print Assumptions C15_1212_frame_bytes.
+
+(* FOR C19: whatever bytes arrive in whatever reads, the RecentTerminalMessage the connection ends with (its phone number
+   names the directory the default file handler stores under) was produced by Frame.decode, so its BCD phone field
+   consists of 6 or 10 bytes *)
+Theorem C15_recent_message_decoded : forall d reads m, Forall bytes reads ->
+  s_recent (snd (run d reads)) = Some m -> Frame_proofs.decoded_header m.
+Proof. exact run_recent_decoded. Qed.
+Print Assumptions C15_recent_message_decoded.
+Theorem C15_recent_phone_bytes : forall d reads m, Forall bytes reads ->
+  s_recent (snd (run d reads)) = Some m -> bytes (m_bcd m) /\ m_bcd m <> [].
+Proof. exact run_recent_phone. Qed.
+Print Assumptions C15_recent_phone_bytes.
+
 (* the hypothesis "irun ... = Some sts" of C15_segmentation is what upload_ok guarantees *)
 Theorem C15_upload_accepted : forall d its s known, Forall (wf_item d) its -> upload_ok d known its = true ->
   (forall nm, In nm known -> afind name_eqb nm (s_record s) <> None) ->
@@ -233,3 +277,32 @@ Example C15_ex_1212_lists :
   | None => False
   end.
 Proof. vm_compute. reflexivity. Qed.
+
+(* the conclusions of C15_recorded_chunks_ok on the example: after every item both files' records are disjoint,
+   non-empty, in range, and CurrentSize is their total (computed) *)
+Example C15_ex_records_sum :
+  match irun 1 init_st ex_items with
+  | Some sts => forallb (fun s => forallb (fun r => (p_cur (snd r) =? sum_len (p_recs (snd r))) &&
+                                                     forallb (fun g => (0 <? snd g) && (fst g + snd g <=? p_size (snd r))) (p_recs (snd r)))
+                                          (s_record s)) sts = true
+  | None => False
+  end.
+Proof. vm_compute. reflexivity. Qed.
+
+(* what the server does with a zero-length chunk (finding C15/zero-length-chunk): the record (5, 0) cuts the missing
+   range of an empty 10-byte file in two adjacent ranges *)
+Example C15_zero_length_record : miss_segments 10 0 [(5, 0)] = [(0, 5); (5, 5)].
+Proof. vm_compute. reflexivity. Qed.
+
+(* end to end under the HLJ dialect (d = 2: no terminal id in 0x1210, length-prefixed chunk header): one file "A" = 07 08 09
+   sent as 1 + 2 bytes, second piece first; whole and byte by byte give the same observables, the file ends complete *)
+Definition ex_1210_hlj : list N := encode ex_hdr ID_1210 1 (repeat 48 70 ++ [0; 1] ++ [1; 65] ++ be_enc 4 3).
+Definition ex_items_hlj : list item :=
+  [I_frame ex_1210_hlj; I_chunk [65] 1 [8; 9]; I_frame (ex_1212 65 3 2); I_chunk [65] 0 [7]; I_frame (ex_1212 65 3 3)].
+Example C15_ex_hlj :
+  let stream := concat (map (Attach.wire 2) ex_items_hlj) in
+  upload_ok 2 [] ex_items_hlj = true /\ forallb (wf_itemb 2) ex_items_hlj = true /\
+  obs (run 2 [stream]) = obs (run 2 (map (fun b => [b]) stream)) /\
+  map e_stage (fst (fst (run 2 [stream]))) = [1; 3; 4; 5; 6; 7] /\
+  map (fun r => (fst r, p_cur (snd r), p_body (snd r))) (s_record (snd (run 2 [stream]))) = [([65], 3, [7; 8; 9])].
+Proof. vm_compute. repeat split; reflexivity. Qed.
